@@ -26,6 +26,8 @@ type c03Meta struct {
 	Want []string `json:"want"` // sorted "Recv.Name" / ".Name" keys, one per method
 	// Pre lists functions (same key form) that the setup file itself declares and that are carried over.
 	Pre []string `json:"pre,omitempty"`
+	// ReverseHookMask-1 selects a combination of the reverse-with-hook enumeration (0: an ordinary case)
+	ReverseHookMask int `json:"reverse_hook_mask,omitempty"`
 }
 
 func recvBase(e ast.Expr) string {
@@ -183,6 +185,81 @@ func relayout(t *rapid.T, p *pg.Prog) *pg.Prog {
 	return &q
 }
 
+// c03ReverseHook: :reverse together with a hook. Which operand the hook sees first under :reverse is not
+// documented (T19), so both orientations of the hook's two leading parameters are tried: a setup file of one of
+// the two orientations is well-formed, must be accepted and its output must compile. The mask selects receiver,
+// pointer-ness of the hook's parameters and of the method's parameter, pre/post and an error-returning hook.
+func c03ReverseHook(env *hx.Env, mask int) (hx.Verdict, []string, hx.Files, int) {
+	recv, firstPtr, secondPtr, post, hookErr, paramPtr := mask&1 != 0, mask&2 != 0, mask&4 != 0, mask&8 != 0, mask&16 != 0, mask&32 != 0
+	star := func(b bool) string {
+		if b {
+			return "*"
+		}
+		return ""
+	}
+	kindName := map[bool]string{false: "preprocess", true: "postprocess"}[post]
+	var accepted []string
+	var lastErr string
+	var shown hx.Files
+	runs := 0
+	for _, orient := range []string{"result-type-first", "parameter-type-first"} {
+		t1, t2 := "RvRow", "RvOrder"
+		if orient == "parameter-type-first" {
+			t1, t2 = t2, t1
+		}
+		var sb strings.Builder
+		sb.WriteString("//go:build convergen\n\npackage home\n\ntype Convergen interface {\n")
+		if recv {
+			sb.WriteString("\t// :recv o\n")
+		}
+		sb.WriteString("\t// :style arg\n\t// :reverse\n\t// :skip Loaded\n\t// :" + kindName + " rvHook\n")
+		res := "*RvRow"
+		if hookErr {
+			res = "(*RvRow, error)"
+		}
+		fmt.Fprintf(&sb, "\tLoad(o %sRvOrder) %s\n}\n", star(paramPtr), res)
+		hookRes, body := "", ""
+		if hookErr {
+			hookRes, body = " error", " return nil "
+		}
+		hook := fmt.Sprintf("package home\n\ntype RvOrder struct {\n\tID     int\n\tTitle  string\n\tLoaded bool\n}\n\ntype RvRow struct {\n\tID    int\n\tTitle string\n}\n\nfunc rvHook(a %s%s, b %s%s)%s {%s}\n",
+			star(firstPtr), t1, star(secondPtr), t2, hookRes, body)
+		files := (&pg.Prog{}).Files().Set(pg.SetupPath, sb.String()).Set("home/rv.go", hook)
+		if shown == nil {
+			shown = files
+		}
+		o, err := pg.RunModule(env, files)
+		if err != nil {
+			return hx.Failf("harness|io", "%v", err), nil, shown, runs
+		}
+		runs++
+		if o.Res.TimedOut {
+			o.Cleanup()
+			return hx.Verdict{OK: true, Inconclusive: true}, nil, shown, runs
+		}
+		if o.Res.Crashed() {
+			defer o.Cleanup()
+			return hx.Failf("C03|rejected|crash", "setup file with :reverse and a hook crashes the tool:\n%s\n%s", sb.String(), tail(o.Res.Stderr, 1500)), nil, files, runs
+		}
+		if o.Res.Exit == 0 && o.HasOut {
+			keys, _ := funcKeys(o.Out)
+			if ok, _, raw := pg.Build(o.Dir); ok && len(keys) == 1 {
+				accepted = append(accepted, orient)
+			} else {
+				lastErr += orient + ": accepted, functions " + fmt.Sprint(keys) + ", build: " + tail(raw, 600) + "\n"
+			}
+		} else {
+			lastErr += orient + ": " + lastLine(o.Res.Stderr) + "\n"
+		}
+		o.Cleanup()
+	}
+	if len(accepted) == 0 {
+		return hx.Failf("C03|rejected|reverse-with-hook", ":reverse with a :%s hook (receiver %v, hook parameters %v/%v by pointer, hook error %v): neither orientation of the hook's parameters gives an accepted setup file whose output compiles\n%s",
+			kindName, recv, firstPtr, secondPtr, hookErr, lastErr), nil, shown, runs
+	}
+	return hx.Pass, accepted, shown, runs
+}
+
 func TestC03(t *testing.T) {
 	env, rec := start(t, "C03", "exploration",
 		"(a) rapid-generated well-formed programs (Engine P: all documented notations with existing functions of acceptable shape, all legal method shapes, 1-6 methods, 1-2 converter interfaces, imported/aliased/odd-layout packages), "+
@@ -197,6 +274,10 @@ func TestC03(t *testing.T) {
 		var m c03Meta
 		if err := json.Unmarshal(c.Meta, &m); err != nil {
 			return hx.Failf("harness|bad-meta", "%v", err)
+		}
+		if m.ReverseHookMask > 0 {
+			v, _, _, _ := c03ReverseHook(env, m.ReverseHookMask-1)
+			return v
 		}
 		v, _ := c03Judge(env, c.Files, m)
 		return v
@@ -280,6 +361,23 @@ func TestC03(t *testing.T) {
 			}
 		}
 		rec.SetExhaustive(true)
+	})
+
+	// (c) :reverse together with a hook (see c03ReverseHook)
+	t.Run("reverse-with-hook", func(t *testing.T) {
+		for mask := 0; mask < 1<<6; mask++ {
+			if !mine(env, mask) {
+				continue
+			}
+			v, accepted, files, runs := c03ReverseHook(env, mask)
+			rec.EvalN(runs)
+			rec.NonTrivialDistinctN(1)
+			rec.Class("reverse-with-hook:accepted=" + strings.Join(accepted, "+"))
+			if mask%13 == 0 {
+				rec.Sample(map[string]any{"reverse_with_hook_mask": mask, "accepted_orientations": accepted})
+			}
+			rec.Report(t, v, mkCase(files, c03Meta{Want: []string{"Load"}, ReverseHookMask: mask + 1}, "reverse-with-hook"))
+		}
 	})
 
 	// (a) generated programs + re-layout
